@@ -325,9 +325,14 @@ func doParseType(vt reflect.Type, def string, i *int, allowPtrs bool) (*Type, er
 		/* parse the pointer element recursively */
 		if ret.V, err = doParseType(vt.Elem(), def, i, false); err != nil {
 			return nil, err
-		} else {
-			return ret, nil
 		}
+
+		/* prohibit pointers to containers, they are reference types already */
+		switch ret.V.T {
+		case T_map, T_set, T_list:
+			return nil, EType(vt, "pointers to map, set or list are not allowed")
+		}
+		return ret, nil
 	}
 
 	/* check for value kind */
